@@ -191,6 +191,23 @@ def startup_cases(tier):
                         yield {'kind': 'sweep', 'spawner': 'POPEN', 'bulks': [[spec]], 'moves': moves}
 
 
+def limit_cases(tier):
+    """a task with only a start-up limit reports its start-up (which ends its limit); another task
+    with a run-time limit then overruns it: that one must still be stopped"""
+    for su in (1, 5):
+        for to in (1, 5):
+            for first in (0, 1):
+                for tick in (7, 40):
+                    for n_other in (0, 2):
+                        a = {'exit': 0, 'startup_timeout': su}
+                        b = {'exit': 0, 'timeout': to}
+                        specs = ([a, b] if first == 0 else [b, a]) + [{'exit': 0}] * n_other
+                        yield {'kind': 'sweep', 'spawner': 'POPEN', 'bulks': [specs],
+                               'moves': [['submit'], ['named', 'intake', 60 * len(specs)],
+                                         ['named', 'to', 40], ['startup', first], ['named', 'to', 40],
+                                         ['tick', tick], ['named', 'to', 80], ['named', 'watch', 80]]}
+
+
 def burst_cases(tier):
     """more tasks are launched between two passes of the process watcher than it takes over in one
     pass (its bulk limit is 100): none may be lost"""
@@ -208,6 +225,7 @@ def parts(tier):
         Part('preemption_sweep', enum=sweep_cases),
         Part('two_task_sweep', enum=sweep2_cases),
         Part('startup_report', enum=startup_cases),
+        Part('limit_after_startup_report', enum=limit_cases),
         Part('launch_bursts', enum=burst_cases),
     ]
 
